@@ -852,8 +852,18 @@ class OverlayStore(Store):
         self.on_metadata_changed(key)
 
     def store_metadata(self, key, metadata):
+        copy_up = (
+            key not in self.removed
+            and not self.overlay.contains(key)
+            and self.fallback.contains(key)
+            and not self.fallback.is_dir(key)
+        )
         self._unremove(key)
-        self.overlay.store_metadata(key, metadata)
+        if copy_up:
+            # the entry lives in the fallback only: copy it up, so that the data stays readable
+            self.overlay.store(key, self.fallback.get_bytes(key), metadata)
+        else:
+            self.overlay.store_metadata(key, metadata)
         self.on_metadata_changed(key)
 
     def remove(self, key):
